@@ -24,7 +24,7 @@ def correspond(ctx, name, cases_text, precond="ruiz", backends=("dense",), timeo
     if model is None:
         ctx.ob("correspondence:%s:model" % name, "correspondence", False, "model build: " + msg2)
         return res, mobs
-    rc2, o2 = vlib.run_bin(model, cf, args=(["--identity"] if precond != "ruiz" else []), timeout=timeout)
+    rc2, o2 = vlib.run_bin_chunked(model, cases_text, ctx.work, name + "_m", args=(["--identity"] if precond != "ruiz" else []), timeout=timeout)
     if rc2 != 0:
         ctx.ob("correspondence:%s:model" % name, "correspondence", False, "model driver failed rc=%d: %s" % (rc2, o2[-600:]))
         return res, mobs
@@ -33,7 +33,7 @@ def correspond(ctx, name, cases_text, precond="ruiz", backends=("dense",), timeo
         obn = "correspondence:%s:%s:%s" % (name, b, precond)
         if impl is None:
             ctx.ob(obn, "correspondence", False, "harness build: " + msg1); res[b] = (False, [], {}); continue
-        rc1, o1 = vlib.run_bin(impl, cf, timeout=timeout)
+        rc1, o1 = vlib.run_bin_chunked(impl, cases_text, ctx.work, name + "_" + b, timeout=timeout)
         if rc1 != 0:
             ctx.ob(obn, "correspondence", False, "driver failed rc=%d: %s" % (rc1, o1[-600:])); res[b] = (False, [], vlib.parse_obs(o1)); continue
         a = vlib.parse_obs(o1)
